@@ -298,6 +298,7 @@ func main() {
 	qs := modelledQueries(u)
 	run.Extra["modelled_queries"] = len(qs)
 	modelHistories(run, qs, []*storex.Profile{kvHeavy, catalogHeavy, sessionHeavy, txnHeavy}, run.Scale(160, 1400), 25, run.Scale(12, 6))
+	wideWitnesses(run)
 	wideHistories(run, run.Scale(120, 1000), 30)
 	pre, ls := catalogAlphabet()
 	exhaustive(run, "catalog", qs, pre, ls, run.Scale(2, 3))
